@@ -29,7 +29,23 @@ func (c *ConfigStorage) SetConfig(cfg *config.Config) error {
 // Config honors the storer.ConfigStorer interface.
 func (c *ConfigStorage) Config() (*config.Config, error) {
 	if !c.set {
-		return c.ConfigStorer.Config()
+		cfg, err := c.ConfigStorer.Config()
+		if err != nil {
+			return nil, err
+		}
+		// Callers modify the config they are given and hand it back through
+		// SetConfig. A base that returns its own object (memory storage)
+		// must not see those modifications before Commit: return a copy,
+		// made the way a filesystem base makes one (marshal and re-read).
+		b, err := cfg.Marshal()
+		if err != nil {
+			return nil, err
+		}
+		cp := config.NewConfig()
+		if err := cp.Unmarshal(b); err != nil {
+			return nil, err
+		}
+		return cp, nil
 	}
 
 	return c.temporal.Config()
